@@ -17,6 +17,7 @@ import Fir.Model.Resample
 import Fir.Model.Resizer
 import Fir.Proofs.FixedLemmas
 import Fir.Proofs.ErrLemmas
+import Fir.Proofs.ImageLemmas
 
 namespace Fir.C01
 open Fir
@@ -60,6 +61,56 @@ theorem two_pass_err (ws : List ℚ) (xs ys : List ℚ) (e : ℚ) (hlen : xs.len
     (hxy : ∀ i, i < ws.length → |xs.getD i 0 - ys.getD i 0| ≤ e) :
     |(List.zipWith (· * ·) ws xs).sum - (List.zipWith (· * ·) ws ys).sum| ≤ (ws.map (|·|)).sum * e :=
   Fir.Proofs.two_pass_err ws xs ys e hlen hlen2 hxy
+
+/-! ### whole images (`Fir.horizPass` / `Fir.vertPass` of the executable model) -/
+
+/-- one 8-bit component against the *clamped* ideal value: half a unit of rounding plus the coefficient
+    quantisation `n·255/2^(p+1)` -/
+theorem passInt_err_u8 (ws : List ℚ) (ks xs : List Int) (p : Nat) (hp1 : 1 ≤ p) (hp : p < 32)
+    (hlen : ks.length = ws.length) (hlen2 : xs.length = ws.length)
+    (hq : ∀ i, i < ws.length → |(ks.getD i 0 : ℚ) - ws.getD i 0 * 2 ^ p| ≤ 1 / 2)
+    (hx : ∀ x ∈ xs, 0 ≤ x ∧ x ≤ 255) (hacc : Fir.Proofs.AccOK8 ks xs p) :
+    |((passInt .u8 ks xs p : Int) : ℚ) - max 0 (min 255 (idealDot ws xs))| ≤ 1 / 2 + (ws.length : ℚ) * 255 / 2 ^ (p + 1) :=
+  Fir.Proofs.passInt_err_u8 ws ks xs p hp1 hp hlen hlen2 hq hx hacc
+
+theorem passInt_err_u16 (ws : List ℚ) (ks xs : List Int) (p : Nat) (hp1 : 1 ≤ p) (hp : p < 64)
+    (hlen : ks.length = ws.length) (hlen2 : xs.length = ws.length)
+    (hq : ∀ i, i < ws.length → |(ks.getD i 0 : ℚ) - ws.getD i 0 * 2 ^ p| ≤ 1 / 2)
+    (hx : ∀ x ∈ xs, 0 ≤ x ∧ x ≤ 65535) (hacc : Fir.Proofs.AccOK16 ks xs p) :
+    |((passInt .u16 ks xs p : Int) : ℚ) - max 0 (min 65535 (idealDot ws xs))| ≤ 1 / 2 + (ws.length : ℚ) * 65535 / 2 ^ (p + 1) :=
+  Fir.Proofs.passInt_err_u16 ws ks xs p hp1 hp hlen hlen2 hq hx hacc
+
+open Fir.Proofs in
+/-- every component of the model's horizontal 8-bit pass is within the bound of the clamped ideal filter
+    `Σ wᵢ·xᵢ` (weights `ws x` of which the integer coefficients are roundings) applied to the samples read -/
+theorem horizPass_err_u8 (src : Img) (dstW dstH offset : Nat) (c : Coeffs) (ws : Nat → List ℚ)
+    (hp1 : 1 ≤ (qOf .u8 c).precision) (hp : (qOf .u8 c).precision < 32)
+    (hlen : ∀ x, x < dstW → (chunkAt .u8 c x).2.toList.length = (ws x).length)
+    (hq : ∀ x, x < dstW → ∀ i, i < (ws x).length →
+      |(((chunkAt .u8 c x).2.toList.getD i 0 : Int) : ℚ) - (ws x).getD i 0 * 2 ^ (qOf .u8 c).precision| ≤ 1 / 2)
+    (hsamp : ∀ x y ch, x < dstW → y < dstH → ch < src.n → ∀ s ∈ hWindow .u8 src offset c x y ch, 0 ≤ s ∧ s ≤ 255)
+    (hacc : ∀ x y ch, x < dstW → y < dstH → ch < src.n →
+      AccOK8 (chunkAt .u8 c x).2.toList (hWindow .u8 src offset c x y ch) (qOf .u8 c).precision)
+    (x y ch : Nat) (hx : x < dstW) (hy : y < dstH) (hc : ch < src.n) :
+    |(((horizPass .u8 src dstW dstH offset c).get x y ch : Int) : ℚ)
+        - max 0 (min 255 (idealDot (ws x) (hWindow .u8 src offset c x y ch)))|
+      ≤ 1 / 2 + ((ws x).length : ℚ) * 255 / 2 ^ ((qOf .u8 c).precision + 1) :=
+  Fir.Proofs.horizPass_err_u8 src dstW dstH offset c ws hp1 hp hlen hq hsamp hacc x y ch hx hy hc
+
+open Fir.Proofs in
+theorem vertPass_err_u8 (src : Img) (dstW dstH offset : Nat) (c : Coeffs) (ws : Nat → List ℚ)
+    (hp1 : 1 ≤ (qOf .u8 c).precision) (hp : (qOf .u8 c).precision < 32)
+    (hlen : ∀ y, y < dstH → (chunkAt .u8 c y).2.toList.length = (ws y).length)
+    (hq : ∀ y, y < dstH → ∀ i, i < (ws y).length →
+      |(((chunkAt .u8 c y).2.toList.getD i 0 : Int) : ℚ) - (ws y).getD i 0 * 2 ^ (qOf .u8 c).precision| ≤ 1 / 2)
+    (hsamp : ∀ x y ch, x < dstW → y < dstH → ch < src.n → ∀ s ∈ vWindow .u8 src offset c x y ch, 0 ≤ s ∧ s ≤ 255)
+    (hacc : ∀ x y ch, x < dstW → y < dstH → ch < src.n →
+      AccOK8 (chunkAt .u8 c y).2.toList (vWindow .u8 src offset c x y ch) (qOf .u8 c).precision)
+    (x y ch : Nat) (hx : x < dstW) (hy : y < dstH) (hc : ch < src.n) :
+    |(((vertPass .u8 src dstW dstH offset c).get x y ch : Int) : ℚ)
+        - max 0 (min 255 (idealDot (ws y) (vWindow .u8 src offset c x y ch)))|
+      ≤ 1 / 2 + ((ws y).length : ℚ) * 255 / 2 ^ ((qOf .u8 c).precision + 1) :=
+  Fir.Proofs.vertPass_err_u8 src dstW dstH offset c ws hp1 hp hlen hq hsamp hacc x y ch hx hy hc
 
 /-- SuperSampling is the convolution of the nearest-neighbour intermediate image it documents
     (factor > 1.2), or the plain convolution (otherwise) - by the model's control flow -/
